@@ -1,7 +1,7 @@
 (** C03 — after a host restart live spans are restored faithfully; nothing is rejected.
     Property theorems only. *)
 From TT Require Import Tunnel.ReceiverAbs Tunnel.ReceiverInv Tunnel.ReceiverHistInv
-  Tunnel.ReceiverAbsProofs Tunnel.ReceiverMisc.
+  Tunnel.ReceiverAbsProofs Tunnel.ReceiverMisc Tunnel.ReceiverFinalize Tunnel.ReceiverAttach.
 From stdpp Require Import gmap.
 Local Open Scope N_scope.
 
@@ -44,6 +44,32 @@ Theorem C03_presented_on_first_enter : forall st w id st' w' calls,
         presented_values calls = host_vals md (sd_values d)
   end.
 Proof. exact entered_presentation. Qed.
+
+(** Events emitted inside a span that was entered after the restart are attached to it: when the
+    entered span has no host span yet, the host span created for it is the host thread's current
+    span right after the event, whatever the thread had entered before (host ids issued earlier);
+    a span that has a host span becomes current unless the thread is already inside it (the
+    Registry's [SpanStack] skips duplicate entries); and a contextual guest event reaches the host as
+    exactly one contextual event, which the host attaches to its current span. *)
+Theorem C03_entered_after_restart_is_current : forall st w id st' w' calls stk,
+  Inv st -> r_local st !! id = None ->
+  try_receive st w (ESpanEntered id) = (Accepted, st', w', calls) ->
+  (forall x, x ∈ stk -> (x <= w_next w)%N) ->
+  let h := (w_next w + 1)%N in
+  r_local st' !! id = Some h /\ stack_apply stk calls = h :: stk /\ current (stack_apply stk calls) = Some h.
+Proof. exact enter_after_restart_is_current. Qed.
+
+Theorem C03_entered_known_span_is_current : forall st w id h st' w' calls stk,
+  Inv st -> r_local st !! id = Some h ->
+  try_receive st w (ESpanEntered id) = (Accepted, st', w', calls) ->
+  stack_apply stk calls = h :: stk /\ (on_stack h stk = false -> current (stack_apply stk calls) = Some h).
+Proof. exact enter_known_is_current. Qed.
+
+Theorem C03_contextual_event_goes_to_current_span : forall st w m vs o st' w' calls,
+  try_receive st w (ENewEvent m None vs) = (o, st', w', calls) -> o = Accepted ->
+  exists md, r_meta st !! m = Some md /\ calls = [HEvent md PCtx (host_vals md vs)] /\ st' = st /\ w' = w /\
+             forall stk, stack_apply stk calls = stk.
+Proof. exact contextual_event_is_contextual. Qed.
 
 (** Non-vacuity: the repaired F3 history. *)
 Example C03_example :
